@@ -28,6 +28,9 @@ macro_rules! is_signed {
     (i128) => {
         true
     };
+    (isize) => {
+        true
+    };
     (f32) => {
         true
     };
